@@ -84,6 +84,7 @@ structure Run where
   hedgeAttempt : Bool := false     -- the execution copy the function currently runs on was made by `CopyForHedge` (`IsHedge`)
   mdPos : List Nat := []           -- positions of the retry policies configured with a max duration (static configuration)
   slept : Nat := 0                 -- invocations so far that outlasted the max duration: `ElapsedTime() > maxDuration` iff > 0
+  hpLast : Outcome := ⟨0, none⟩    -- `LastResult` / `LastError` of the execution a hedge policy was entered with (every hedge copy starts from it)
 deriving Repr
 
 abbrev Layer := Run → Option (PR × Run)
@@ -246,8 +247,9 @@ def hedgeLoop (pos maxHedges : Nat) (cancelOn : List Cond) (inner : Layer) : Nat
   | 0, _, _, _ => fun _ => none
   | fuel + 1, k, done, blocked => fun r =>
     -- start attempt k (k = 0: the first attempt, no event; k ≥ 1: a hedge, run on a `CopyForHedge` copy)
-    let r := if k == 0 then { r with hedgeAttempt := false } else
-      ({ r with attempts := r.attempts + 1, hedges := r.hedges + 1, hedgeAttempt := true }).emit "hp.onHedge" pos
+    -- every attempt runs on its own copy of the parent execution: what an earlier attempt recorded on its copy is not seen
+    let r := if k == 0 then { r with hedgeAttempt := false, hpLast := r.last } else
+      ({ r with attempts := r.attempts + 1, hedges := r.hedges + 1, hedgeAttempt := true, last := r.hpLast }).emit "hp.onHedge" pos
     match r.script with
     | it :: _ =>
       if it.blocks then
@@ -363,7 +365,9 @@ def applyPolicy (fuel pos : Nat) : Policy → Layer → Layer
         if fired then some (timeoutResult.withFailure, r)
         else if (match res.err with | some e => e.is Err.TIMEOUT | none => false) then some (res.withFailure, r)
         else some (res.withDone true true, r)
-  | .hedge n co, inner => hedgeLoop pos n co inner (n + 2) 0 0 0
+  | .hedge n co, inner => fun r =>
+      -- the parent execution's last outcome is not touched by what the attempts record on their copies
+      (hedgeLoop pos n co inner (n + 2) 0 0 0 r).map (fun x => (x.1, { x.2 with last := r.last }))
   | .cache id key cif, inner => fun r =>
       let k := cacheKeyOf r key
       let entries := (r.w.caches[id]?).getD []
